@@ -17,6 +17,7 @@ type egPart struct {
 	Sym  int      `json:"sym,omitempty"`
 	Alts []*egAlt `json:"alts,omitempty"` // grp: alternatives; opt, list: exactly one (content / element)
 	Sep  int      `json:"sep,omitempty"`  // list separator terminal, 0 = none
+	Sep2 int      `json:"sep2,omitempty"` // second terminal of a two-token separator (needs Sep)
 	Plus bool     `json:"plus,omitempty"`
 	Name string   `json:"name,omitempty"` // alias: name=part
 	Set  []int    `json:"set,omitempty"`  // set: terminals; la: predicate nonterminals (negative = negated: -1-nt)
@@ -109,11 +110,15 @@ func (g *egSpec) renderPart(p *egPart) string {
 		if p.Plus {
 			q = "+"
 		}
+		sepText := egTerm(p.Sep)
+		if p.Sep != 0 && p.Sep2 != 0 {
+			sepText += " " + egTerm(p.Sep2)
+		}
 		switch {
 		case p.Sep != 0 && a.Node != "":
-			s = "((" + g.renderAlt(a) + ") separator " + egTerm(p.Sep) + ")" + q
+			s = "((" + g.renderAlt(a) + ") separator " + sepText + ")" + q
 		case p.Sep != 0:
-			s = "(" + g.renderAlt(a) + " separator " + egTerm(p.Sep) + ")" + q
+			s = "(" + g.renderAlt(a) + " separator " + sepText + ")" + q
 		case len(a.Parts) == 1 && a.Parts[0].simple() && a.Node == "" && a.Parts[0].Name == "":
 			s = g.renderPart(a.Parts[0]) + q
 		default:
@@ -406,6 +411,9 @@ func (d *deriver) alt(a *egAlt, nt int, depth int) *dNode {
 				if i > 0 && p.Sep != 0 {
 					k.seps = append(k.seps, len(d.toks))
 					d.toks = append(d.toks, p.Sep)
+					if p.Sep2 != 0 {
+						d.toks = append(d.toks, p.Sep2)
+					}
 				}
 				k.elems = append(k.elems, d.alt(p.Alts[0], -1, depth+1))
 			}
